@@ -257,7 +257,7 @@ def machine_run(cmds, stacks, max_steps, stdin=""):
 def cases_for(op, seed):
     """yield (line, expected, pretty input)"""
     if op == "stdin.cat":
-        texts = ["", "a", "ab\ncd", "ab\ncd\n", "\n\nx", "é가\U0001F496\n\U0010FFFF", "\x00\x7f\u0080\u07ff\u0800\ud7ff\ue000\uffff\U00010000", "x" * 300 + "\ny"]
+        texts = ["", "a", "a\r\nb", "\r\n\r", "ab\ncd", "ab\ncd\n", "\n\nx", "é가\U0001F496\n\U0010FFFF", "\x00\x7f\u0080\u07ff\u0800\ud7ff\ue000\uffff\U00010000", "x" * 300 + "\ny"]
         for t in texts:
             k = len(t) + 3
             # reading is line by line: after each line is exhausted the next is read; an EMPTY buffer after the last
